@@ -1,9 +1,231 @@
 /-
-C11 — parsed rows depend only on the lines.  (theorems follow; correspondence is set up first)
+C11 — parsed rows depend only on the lines: invariant under chunking, threads, parts.
+
+Property theorems only; the machinery lives in DmlcModel/Parse/{Lemmas,Spec,Block,Rows,Concat,Svm,Fm,Cuts}.lean.
+All theorems are generic in the numeric conversions `conv` (contract `Conv.Local`) and are about the
+model instantiated with `Fixes.current`, i.e. with the repairs the source is found to carry
+(`C11_source_is_repaired` stops compiling when one of the `fix:` commits of findings C11-F1..F4 is missing).
 -/
-import DmlcModel.Parse.Model
+import DmlcModel.Parse.Fm
+import DmlcModel.Parse.Cuts
+import DmlcModel.Parse.ConvSimple
 
 namespace DmlcModel.Props.C11
 open DmlcModel DmlcModel.Parse
+
+/-- the source carries the repairs of findings C11-F1..F4 (read off the source by `Gen.Parse.fix*`) -/
+theorem C11_source_is_repaired : Fixes.current = Fixes.repaired := by decide
+
+/-- the rows `P::ParseBlock` + `GetBlock` + `operator[]` hand out for the block `[a, b)` of `mem` -/
+def rowsAt (f : Format) (conv : Conv) (mem : Bytes) (a b : Nat) : Res (List Row) :=
+  (f.parseBlock Fixes.current conv mem a b).bind rowsOf
+
+/-- … for a NUL-terminated text; applied to one line this is "the line parsed on its own" -/
+def rows (f : Format) (conv : Conv) (t : Bytes) : Res (List Row) := rowsAt f conv (t ++ [0]) 0 t.length
+
+/-- **C11, core statement** for a parser `f`: for every text in which no single line makes the parser
+throw and whose rows agree on the optional parts they carry, the rows of the block are the
+concatenation of the rows of its lines, each parsed on its own (no token of one line influences the
+row of another line). -/
+def C11_block_is_concat_of_lines_statement (f : Format) : Prop :=
+  ∀ (conv : Conv), conv.Local → ∀ (t : Bytes), t.length + 2 < 2 ^ 64 → ∀ (rss : List (List Row)),
+    (eolSplit t).mapM (rows f conv) = .ok rss → AgreeRows rss.flatten → rows f conv t = .ok rss.flatten
+
+theorem rows_libsvm (conv : Conv) (iw mode : Nat) : rows (.libsvm iw mode) conv = svmRows Fixes.repaired conv iw mode := by
+  funext t; simp [rows, rowsAt, Format.parseBlock, svmRows, svmRowsAt, C11_source_is_repaired]
+
+theorem rows_libfm (conv : Conv) (iw mode : Nat) : rows (.libfm iw mode) conv = fmRows Fixes.repaired conv iw mode := by
+  funext t; simp [rows, rowsAt, Format.parseBlock, fmRows, fmRowsAt, C11_source_is_repaired]
+
+theorem C11_block_is_concat_of_lines_libsvm (iw mode : Nat) :
+    C11_block_is_concat_of_lines_statement (.libsvm iw mode) := by
+  intro conv ⟨gR, gI, gQ, gC, hL⟩ t hb rss hl ha
+  rw [rows_libsvm] at hl ⊢
+  exact (svm_lineFormat hL iw mode).concat_of_lines t hb rss hl ha
+
+theorem C11_block_is_concat_of_lines_libfm (iw mode : Nat) :
+    C11_block_is_concat_of_lines_statement (.libfm iw mode) := by
+  intro conv ⟨gR, gI, gQ, gC, hL⟩ t hb rss hl ha
+  rw [rows_libfm] at hl ⊢
+  exact (fm_lineFormat hL iw mode).concat_of_lines t hb rss hl ha
+
+/-- the csv instance of the core statement is stated, not proved (see CONFIG['partial']): the csv line
+loop (BOM skip, end-of-line runs, cells) has no list specification yet; it is covered by
+correspondence + oracle only -/
+def C11_block_is_concat_of_lines_csv_statement (prm : CsvParam) : Prop :=
+  C11_block_is_concat_of_lines_statement (.csv prm)
+
+/-! ### cuts at end-of-line bytes: thread slices, chunks, parts -/
+
+/-- what a cut at the end-of-line byte `e` of the text `x e y` preserves, for a parser `f` -/
+def C11_cut_statement (f : Format) : Prop :=
+  ∀ (conv : Conv), conv.Local → ∀ (x y : Bytes) (e : UInt8), isEolB e = true → (x ++ e :: y).length + 2 < 2 ^ 64 →
+    ∀ (rss : List (List Row)), (eolSplit (x ++ e :: y)).mapM (rows f conv) = .ok rss → AgreeRows rss.flatten →
+    ∃ rx ry, rows f conv (x ++ e :: y) = .ok (rx ++ ry) ∧
+      -- thread slices: the cut byte starts the right piece (BackFindEndLine returns its position)
+      rows f conv x = .ok rx ∧ rows f conv (e :: y) = .ok ry ∧
+      -- chunks and parts: the cut byte ends the left piece (C03: cuts fall directly after an end-of-line byte)
+      rows f conv (x ++ [e]) = .ok rx ∧ rows f conv y = .ok ry
+
+theorem cut_of_lineFormat {rws : Bytes → Res (List Row)} {recS : Bytes → Res (Option LineRec)}
+    (F : LineFormat rws recS) (x y : Bytes) (e : UInt8) (he : isEolB e = true)
+    (hb : (x ++ e :: y).length + 2 < 2 ^ 64) (rss : List (List Row))
+    (hl : (eolSplit (x ++ e :: y)).mapM rws = .ok rss) (ha : AgreeRows rss.flatten) :
+    ∃ rx ry, rws (x ++ e :: y) = .ok (rx ++ ry) ∧ rws x = .ok rx ∧ rws (e :: y) = .ok ry ∧
+      rws (x ++ [e]) = .ok rx ∧ rws y = .ok ry := by
+  obtain ⟨rsx, rsy, _, _, _, _, h1, h2, h3, h4, h5⟩ := F.cut x y e he hb rss hl ha
+  exact ⟨rsx.flatten, rsy.flatten, h5, h1, h3, h2, h4⟩
+
+/-- two adjacent thread slices `[a,b)`, `[b,c)` of FillData (the cut `b` is the position of an end-of-line
+byte, as `BackFindEndLine` returns it): their rows, in order, are the rows of `[a,c)` -/
+theorem C11_thread_invariant_libsvm (iw mode : Nat) : C11_cut_statement (.libsvm iw mode) := by
+  intro conv ⟨gR, gI, gQ, gC, hL⟩ x y e he hb rss hl ha
+  rw [rows_libsvm] at hl ⊢
+  exact cut_of_lineFormat (svm_lineFormat hL iw mode) x y e he hb rss hl ha
+
+theorem C11_thread_invariant_libfm (iw mode : Nat) : C11_cut_statement (.libfm iw mode) := by
+  intro conv ⟨gR, gI, gQ, gC, hL⟩ x y e he hb rss hl ha
+  rw [rows_libfm] at hl ⊢
+  exact cut_of_lineFormat (fm_lineFormat hL iw mode) x y e he hb rss hl ha
+
+/-- **chunks** (any buffer size; C03: every chunk but the last of a part ends directly after an end-of-line byte —
+the hypothesis `isEolB p.2`): the rows of the chunks `xᵢ eᵢ`, `z`, in order, are the rows of the whole text -/
+def C11_pieces_after_eol_statement (f : Format) : Prop :=
+  ∀ (conv : Conv), conv.Local → ∀ (ps : List (Bytes × UInt8)) (z : Bytes), (∀ p ∈ ps, isEolB p.2 = true) →
+    (joinAfter ps z).length + 2 < 2 ^ 64 → ∀ (rss : List (List Row)),
+    (eolSplit (joinAfter ps z)).mapM (rows f conv) = .ok rss → AgreeRows rss.flatten →
+    ∃ rs rz, ps.mapM (fun p => rows f conv (p.1 ++ [p.2])) = .ok rs ∧ rows f conv z = .ok rz ∧
+      rows f conv (joinAfter ps z) = .ok (rs.flatten ++ rz)
+
+/-- **thread slices** of FillData (`BackFindEndLine` returns the position of an end-of-line byte, so every slice
+but the first starts with one — the hypothesis `isEolB p.1`): rows of `z`, `(eᵢ yᵢ)` in order = rows of the chunk -/
+def C11_pieces_at_eol_statement (f : Format) : Prop :=
+  ∀ (conv : Conv), conv.Local → ∀ (ps : List (UInt8 × Bytes)) (z : Bytes), (∀ p ∈ ps, isEolB p.1 = true) →
+    (joinAt z ps).length + 3 < 2 ^ 64 → ∀ (rss : List (List Row)),
+    (eolSplit (joinAt z ps)).mapM (rows f conv) = .ok rss → AgreeRows rss.flatten →
+    ∃ rz rs, rows f conv z = .ok rz ∧ ps.mapM (fun p => rows f conv (p.1 :: p.2)) = .ok rs ∧
+      rows f conv (joinAt z ps) = .ok (rz ++ rs.flatten)
+
+theorem C11_thread_invariant_nary_libsvm (iw mode : Nat) : C11_pieces_at_eol_statement (.libsvm iw mode) := by
+  intro conv ⟨gR, gI, gQ, gC, hL⟩ ps z he hb rss hl ha
+  rw [rows_libsvm] at hl ⊢
+  exact (svm_lineFormat hL iw mode).pieces_at_eol ps z he hb rss hl ha
+
+theorem C11_thread_invariant_nary_libfm (iw mode : Nat) : C11_pieces_at_eol_statement (.libfm iw mode) := by
+  intro conv ⟨gR, gI, gQ, gC, hL⟩ ps z he hb rss hl ha
+  rw [rows_libfm] at hl ⊢
+  exact (fm_lineFormat hL iw mode).pieces_at_eol ps z he hb rss hl ha
+
+theorem C11_chunk_invariant_libsvm (iw mode : Nat) : C11_pieces_after_eol_statement (.libsvm iw mode) := by
+  intro conv ⟨gR, gI, gQ, gC, hL⟩ ps z he hb rss hl ha
+  rw [rows_libsvm] at hl ⊢
+  exact (svm_lineFormat hL iw mode).pieces_after_eol ps z he hb rss hl ha
+
+theorem C11_chunk_invariant_libfm (iw mode : Nat) : C11_pieces_after_eol_statement (.libfm iw mode) := by
+  intro conv ⟨gR, gI, gQ, gC, hL⟩ ps z he hb rss hl ha
+  rw [rows_libfm] at hl ⊢
+  exact (fm_lineFormat hL iw mode).pieces_after_eol ps z he hb rss hl ha
+
+/-- **parts** (any num_parts; C03_parts_cover: the parts tile the input and every part but the last ends directly
+after an end-of-line byte): the same statement one level up — the pieces are the parts, each of which is in turn
+the concatenation of its chunks by `C11_chunk_invariant_*` -/
+theorem C11_part_invariant_libsvm (iw mode : Nat) : C11_pieces_after_eol_statement (.libsvm iw mode) :=
+  C11_chunk_invariant_libsvm iw mode
+theorem C11_part_invariant_libfm (iw mode : Nat) : C11_pieces_after_eol_statement (.libfm iw mode) :=
+  C11_chunk_invariant_libfm iw mode
+
+/-! ### bytes after the block -/
+
+/-- the rows of a block do not depend on the memory around it, as long as the byte after the block is a
+NUL or an end-of-line byte (what FillData's slices and the InputSplit chunks guarantee) -/
+theorem C11_trailing_bytes_irrelevant_libsvm (iw mode : Nat) (conv : Conv) (hL : conv.Local)
+    (mem mem' : Bytes) (a b a' b' : Nat) (t : Bytes) (hb : t.length + 2 < 2 ^ 64)
+    (h : At mem a b t) (h' : At mem' a' b' t) (hT : Term mem b) (hT' : Term mem' b') :
+    rowsAt (.libsvm iw mode) conv mem a b = rowsAt (.libsvm iw mode) conv mem' a' b' := by
+  obtain ⟨gR, gI, gQ, gC, hL⟩ := hL
+  have hc := codeLines_length t
+  have e1 := svm_block_eq_at hL iw mode h hT (by omega)
+  have e2 := svm_block_eq_at hL iw mode h' hT' (by omega)
+  simp only [rowsAt, Format.parseBlock, C11_source_is_repaired]
+  simp only [svmRowsAt] at e1 e2
+  rw [e1, e2]
+
+theorem C11_trailing_bytes_irrelevant_libfm (iw mode : Nat) (conv : Conv) (hL : conv.Local)
+    (mem mem' : Bytes) (a b a' b' : Nat) (t : Bytes) (hb : t.length + 2 < 2 ^ 64)
+    (h : At mem a b t) (h' : At mem' a' b' t) (hT : Term mem b) (hT' : Term mem' b') :
+    rowsAt (.libfm iw mode) conv mem a b = rowsAt (.libfm iw mode) conv mem' a' b' := by
+  obtain ⟨gR, gI, gQ, gC, hL⟩ := hL
+  have hc := codeLines_length t
+  have e1 := fm_block_eq_at hL iw mode h hT (by omega)
+  have e2 := fm_block_eq_at hL iw mode h' hT' (by omega)
+  simp only [rowsAt, Format.parseBlock, C11_source_is_repaired]
+  simp only [fmRowsAt] at e1 e2
+  rw [e1, e2]
+
+/-! ### blank and comment lines -/
+
+theorem icbS_blank_comment (l rest : Bytes) (hl : ∀ b ∈ l, isBlankB b = true) :
+    icbS l = [] ∧ icbS (l ++ 35 :: rest) = [] := by
+  induction l with
+  | nil => simp [icbS, isCommentB, Gen.Parse.icbIsComment, Gen.Parse.commentSymbol]
+  | cons b l ih =>
+    have hb : isBlankB b = true := hl b (by simp)
+    have hnc : isCommentB b = false := by
+      simp [isCommentB, Gen.Parse.icbIsComment, Gen.Parse.commentSymbol, isBlankB, Gen.Parse.isblank] at hb ⊢
+      omega
+    have hns : Gen.Parse.icbStops b.toNat = false := by
+      simp [Gen.Parse.icbStops]; exact hb
+    have := ih (fun x hx => hl x (by simp [hx]))
+    simp [icbS, hnc, hns, this]
+
+/-- a libsvm line of blanks, or of blanks followed by `#…`, contributes no row — wherever it stands,
+by `C11_block_is_concat_of_lines_libsvm` -/
+theorem C11_blank_and_comment_lines_libsvm (iw mode : Nat) (conv : Conv) (hL : conv.Local)
+    (l rest : Bytes) (hl : ∀ b ∈ l, isBlankB b = true) (hrest : ∀ b ∈ rest, isEolB b = false) :
+    rows (.libsvm iw mode) conv l = .ok [] ∧ rows (.libsvm iw mode) conv (l ++ 35 :: rest) = .ok [] := by
+  obtain ⟨gR, gI, gQ, gC, hL⟩ := hL
+  have F := svm_lineFormat hL iw mode
+  have hne : ∀ b ∈ l, isEolB b = false := fun b hb => by
+    have := hl b hb
+    simp [isBlankB, Gen.Parse.isblank, isEolB, Gen.Parse.backIsEol] at this ⊢; omega
+  have hdw : ∀ s : Bytes, (∀ b ∈ s, isEolB b = false) → s.dropWhile isEolB = s := by
+    intro s hs
+    cases s with
+    | nil => rfl
+    | cons b s => simp [List.dropWhile, hs b (by simp)]
+  have hnone : ∀ s : Bytes, (∀ b ∈ s, isEolB b = false) → icbS s = [] → svmRecS gR gI gQ iw mode s = .ok none := by
+    intro s hs hi
+    simp [svmRecS, svmLineS, hdw s hs, hi, pairS, bind, Except.bind, pure, Except.pure, Except.map,
+      Gen.Parse.svmEmptyLine]
+  have h2 : ∀ b ∈ l ++ 35 :: rest, isEolB b = false := by
+    intro b hb
+    simp at hb
+    rcases hb with hb | rfl | hb
+    · exact hne b hb
+    · decide
+    · exact hrest b hb
+  rw [rows_libsvm]
+  constructor
+  · rw [F.rows_single l hne, single, hnone l hne (icbS_blank_comment l rest hl).1]
+    simp [Except.bind, rowsOf_build_nil]
+  · rw [F.rows_single _ h2, single, hnone _ h2 (icbS_blank_comment l rest hl).2]
+    simp [Except.bind, rowsOf_build_nil]
+
+/-- a libfm line of blanks contributes no row -/
+theorem C11_blank_lines_libfm (iw mode : Nat) (conv : Conv) (hL : conv.Local)
+    (l : Bytes) (hl : ∀ b ∈ l, isBlankB b = true) : rows (.libfm iw mode) conv l = .ok [] := by
+  obtain ⟨gR, gI, gQ, gC, hL⟩ := hL
+  have F := fm_lineFormat hL iw mode
+  have hne : ∀ b ∈ l, isEolB b = false := fun b hb => by
+    have := hl b hb
+    simp [isBlankB, Gen.Parse.isblank, isEolB, Gen.Parse.backIsEol] at this ⊢; omega
+  have hnd : l.dropWhile notDigitCharB = [] := by
+    apply dropWhile_all
+    intro b hb
+    have := hl b hb
+    simp [isBlankB, Gen.Parse.isblank, notDigitCharB, Gen.Parse.isdigitchars] at this ⊢; omega
+  rw [rows_libfm, F.rows_single l hne, single]
+  simp [fmRecS, fmLineS, pairS, hnd, bind, Except.bind, pure, Except.pure, Except.map, Gen.Parse.fmEmptyLine,
+    rowsOf_build_nil]
 
 end DmlcModel.Props.C11
